@@ -9,6 +9,7 @@ from ..astutil import (
     name_stores, unparse, walk_local, walk_stmts, raises_of,
 )
 from ..oracles import python_mutators
+from ..cfg import no_exc
 from ..report import Registry, sub
 
 R = Registry(
@@ -167,10 +168,90 @@ def _dupfree(expr, fn, cls, ctx, depth=0) -> bool:
         return False
     if isinstance(expr, ast.IfExp):
         return _dupfree(expr.body, fn, cls, ctx, depth + 1) and _dupfree(expr.orelse, fn, cls, ctx, depth + 1)
+    if isinstance(expr, ast.BinOp) and isinstance(expr.op, ast.Add):
+        # a concatenation is duplicate-free iff both operands are AND they are disjoint.  An operand that
+        # may itself repeat elements decides the question (False); two duplicate-free operands whose
+        # disjointness is not visible in their shape are an idiom this analysis does not understand.
+        lt, rt = expr.left, expr.right
+        if not (_dupfree(lt, fn, cls, ctx, depth + 1) and _dupfree(rt, fn, cls, ctx, depth + 1)):
+            return False
+        disjoint = (_within_self(lt) and _excludes_self(rt)) or (_within_self(rt) and _excludes_self(lt))
+        ctx.require(disjoint, f"{fn.key}: cannot decide whether the operands of `{unparse(expr)}` are disjoint")
+        return True
     return False
 
 
-@R.rule("C54-R2", floor=20, template="T-EXHAUST/T-PATH",
+def _is_self_members(e) -> bool:
+    """`self` / `self._list` (the receiver's own members)."""
+    return (isinstance(e, ast.Name) and e.id == "self") or (
+        isinstance(e, ast.Attribute) and e.attr == "_list" and isinstance(e.value, ast.Name) and e.value.id == "self")
+
+
+def _identity_comp(e):
+    if isinstance(e, ast.ListComp) and len(e.generators) == 1:
+        g = e.generators[0]
+        if isinstance(e.elt, ast.Name) and isinstance(g.target, ast.Name) and e.elt.id == g.target.id:
+            return g
+    return None
+
+
+def _within_self(e) -> bool:
+    """Every element of the list expression is a member of the receiver."""
+    if _is_self_members(e):
+        return True
+    if isinstance(e, ast.Call) and (call_name(e) or "") in ("list", "tuple") and len(e.args) == 1:
+        return _within_self(e.args[0])
+    g = _identity_comp(e)
+    if g is not None:
+        if _within_self(g.iter):
+            return True
+        return any(isinstance(t, ast.Compare) and len(t.ops) == 1 and isinstance(t.ops[0], ast.In)
+                   and isinstance(t.left, ast.Name) and t.left.id == g.target.id
+                   and _is_self_members(t.comparators[0]) for t in g.ifs)
+    return False
+
+
+def _excludes_self(e) -> bool:
+    """No element of the list expression is a member of the receiver (`... if x not in self`)."""
+    g = _identity_comp(e)
+    if g is None:
+        return False
+    return any(isinstance(t, ast.Compare) and len(t.ops) == 1 and isinstance(t.ops[0], ast.NotIn)
+               and isinstance(t.left, ast.Name) and t.left.id == g.target.id
+               and _is_self_members(t.comparators[0]) for t in g.ifs)
+
+
+def _is_private_ctor_param(expr, fn) -> bool:
+    return (isinstance(expr, ast.Name) and expr.id in fn.params and expr.id != "self"
+            and fn.name.startswith("_") and not fn.name.startswith("__"))
+
+
+def _ctor_call_sites(ctx, cls, ctor, param) -> int:
+    """Record one instance per call of the private constructor `ctor` anywhere in its module: the
+    argument that becomes `_list` must be duplicate-free in the caller's context."""
+    pos = ctor.params.index(param) - 1
+    n = 0
+    for caller in sorted(ctx.index.all_functions(cls.module), key=lambda x: x.key):
+        if caller.type_only or caller.is_overload:
+            continue
+        sites = calls_named(caller.node, ctor.name)
+        for i, c in enumerate(sites):
+            arg = c.args[pos] if pos < len(c.args) else next(
+                (k.value for k in c.keywords if k.arg == param), None)
+            ctx.require(arg is not None, f"{caller.key}: call of {ctor.name}() without the `{param}` argument")
+            n += 1
+            ctx.functions_analysed.add(caller.key)
+            key = f"{caller.key}:{ctor.name}({param})" + (f"#{i + 1}" if len(sites) > 1 else "")
+            ctx.check(_dupfree(arg, caller, cls, ctx), key,
+                      f"{caller.qualname} builds a new OrderedSet with {ctor.name}(`{unparse(arg)}`): the list may "
+                      f"repeat an element (nothing de-duplicates it: iteration would yield the element twice "
+                      f"while len() counts it once)",
+                      "list handed to the private constructor is duplicate-free",
+                      f"{caller.module.path}:{c.lineno}")
+    return n
+
+
+@R.rule("C54-R2", floor=25, template="T-EXHAUST/T-PATH",
         desc="OrderedSet overrides every set mutator; each override touches both the set and _list; "
              "_list is only extended from duplicate-free sources or under an element-wise not-in test")
 def r2(ctx):
@@ -216,6 +297,15 @@ def r2(ctx):
             elif isinstance(st, (ast.Assign, ast.AugAssign)):
                 tg = st.targets if isinstance(st, ast.Assign) else [st.target]
                 if any(isinstance(t, ast.Attribute) and t.attr == "_list" for t in tg):
+                    if _is_private_ctor_param(st.value, f) and isinstance(st, ast.Assign):
+                        # private constructor (`_from_list(new_list)`): the obligation moves to the
+                        # callers; one instance per call site, named after the calling method
+                        n = _ctor_call_sites(ctx, cls, f, st.value.id)
+                        ctx.check(n > 0, f"{CY}::OrderedSet.{name}:_list=",
+                                  f"private constructor {name}() stores its parameter into _list but has no call site",
+                                  f"parameter `{st.value.id}`; {n} call site(s) checked one by one",
+                                  f"{f.module.path}:{st.lineno}")
+                        continue
                     good = _dupfree(st.value, f, cls, ctx)
                     kind = "+=" if isinstance(st, ast.AugAssign) else "="
                     ctx.check(good, f"{CY}::OrderedSet.{name}:_list{kind}",
@@ -275,7 +365,7 @@ def r3(ctx):
         ctx.check(not bad, key, f"{m} updates a dict that is not a fresh local: {bad}", "mutates only fresh result", f.loc)
 
 
-@R.rule("C54-R4", floor=6, template="T-PATH",
+@R.rule("C54-R4", floor=11, template="T-PATH",
         desc="LRUCache._manage_size: non-blocking acquire, release on every exit after acquisition, "
              "trim loop bound, LRU victims; __getitem__/__setitem__ counter/value indices")
 def r4(ctx):
@@ -336,30 +426,138 @@ def r4(ctx):
     dl = [n for n in walk_local(fors[0]) if isinstance(n, ast.Delete)]
     okdel = dl and unparse(dl[0].targets[0]).replace(" ", "") == f"self._data[{fors[0].target.id}[0]]"
     ctx.check(bool(okdel), key + ":delete-key", "victim is not deleted by its own key (item[0])", "del self._data[item[0]]", f.loc)
-    # (e) accessors
+    # (e) accessors: structural, on the CFG of each accessor (no local names are assumed)
     for m in ("__getitem__", "get"):
         fm = ctx.func(f"{COLL}::LRUCache.{m}")
-        txt = [unparse(s) for s in walk_stmts(fm.node.body)]
-        bump = any(s.replace(" ", "") == "item[2][0]=self._inc_counter()" for s in txt)
-        ret = any(isinstance(s, ast.Return) and unparse(s.value) == "item[1]" for s in walk_stmts(fm.node.body))
-        src = any(s.replace(" ", "") in ("item=self._data[key]", "item=self._data.get(key)") for s in txt)
-        ctx.check(bump and ret and src, fm.key, f"{m} does not bump the counter of / return the value of the accessed key", "bumps item[2][0], returns item[1]", fm.loc)
+        ctx.functions_analysed.add(fm.key)
+        a = _LruAccessor(ctx, fm)
+        value_returns = [n for n in a.returns if a.is_field(a.g.node(n).stmt.value, 1)]
+        other = [n for n in a.returns if n not in value_returns and not a.returns_default(a.g.node(n).stmt)]
+        if not value_returns or other:
+            bad = [unparse(a.g.node(n).stmt) for n in other] or ["<no return of the stored value>"]
+            ctx.violation(fm.key, f"{m} does not return the value stored under the requested key "
+                                  f"(field 1 of self._data[{a.key}]): {bad}", fm.loc)
+            continue
+        w = None
+        for n in value_returns:
+            w = w or a.g.always_preceded(n, a.bumps, edge_ok=no_exc)
+        ctx.check(w is None, fm.key,
+                  f"{m} can return the value of `{a.key}` without giving that entry a new usage counter "
+                  f"(the read does not count as a use for eviction)",
+                  "every return of the stored value is preceded by a counter bump of the same entry", fm.loc, w)
     fs = ctx.func(f"{COLL}::LRUCache.__setitem__")
-    st = [s for s in walk_stmts(fs.node.body) if isinstance(s, ast.Assign)]
-    good = False
-    for s in st:
-        if unparse(s.targets[0]).replace(" ", "") == "self._data[key]" and isinstance(s.value, ast.Tuple) and len(s.value.elts) == 3:
-            e = s.value.elts
-            good = unparse(e[0]) == "key" and unparse(e[1]) == "value" and "_inc_counter" in unparse(e[2])
-    calls_ms = bool(calls_named(fs.node, "_manage_size"))
-    ctx.check(good and calls_ms, fs.key, "__setitem__ does not store (key, value, [counter]) and trim", "(key, value, [counter]); _manage_size()", fs.loc)
+    ctx.functions_analysed.add(fs.key)
+    a = _LruAccessor(ctx, fs)
+    ctx.require(len(fs.params) == 3, "LRUCache.__setitem__ signature not understood")
+    vparam = fs.params[2]
+    ctx.require(a.stores, "no store into self._data[...] in LRUCache.__setitem__")
+    # (e1) what is stored: (key, value, counter cell) under the same key
+    bad = []
+    fresh_nodes = []
+    for n in a.stores:
+        st = a.g.node(n).stmt
+        tgt, v = st.targets[0], st.value
+        shape = (
+            len(st.targets) == 1 and unparse(tgt.slice) == a.key
+            and isinstance(v, ast.Tuple) and len(v.elts) == 3
+            and unparse(v.elts[0]) == a.key and unparse(v.elts[1]) == vparam
+            and (a.is_fresh_cell(v.elts[2]) or a.is_field(v.elts[2], 2))
+        )
+        if not shape:
+            bad.append(unparse(st))
+        elif a.is_fresh_cell(v.elts[2]):
+            fresh_nodes.append(n)
+    ctx.check(not bad, fs.key + ":entry",
+              f"__setitem__ stores something other than ({a.key}, {vparam}, <counter cell of {a.key}>) under "
+              f"self._data[{a.key}]: {bad}", "(key, value, counter cell) under the key", fs.loc)
+    # (e2) every normal path through __setitem__ gives the written key a new usage counter
+    w = a.g.must_pass([a.g.entry], [a.g.exit], a.bumps, edge_ok=no_exc)
+    ctx.check(w is None, fs.key + ":bump",
+              f"a path through __setitem__ stores `{a.key}` without giving the entry a new usage counter: "
+              f"a just-written entry keeps its old recency and is evicted first",
+              "every path bumps the counter of the written key", fs.loc, w)
+    # (e3) a store that may add a NEW entry (fresh counter cell) is followed by the size check
+    ms = a.g.find_calls("_manage_size")
+    w = a.g.must_pass(fresh_nodes, [a.g.exit], ms, edge_ok=no_exc) if fresh_nodes else None
+    ctx.check(w is None, fs.key + ":trim",
+              "a path adds an entry and leaves __setitem__ without _manage_size()",
+              "every store of a new entry is followed by _manage_size()", fs.loc, w)
+
+
+class _LruAccessor:
+    """Shape facts about one LRUCache accessor `def m(self, key, ...)`: which locals hold the entry of
+    `key`, which CFG nodes give that entry a new usage counter, which nodes store / return."""
+
+    def __init__(self, ctx, f):
+        ctx.require(len(f.params) >= 2 and f.params[0] == "self", f"{f.key}: signature not understood")
+        self.f = f
+        self.key = f.params[1]
+        self.g = g = ctx.cfg(f)
+        # locals bound (only) to the entry of `key`
+        by_name = {}
+        for n, v, st in name_stores(f.node):
+            by_name.setdefault(n, []).append(v)
+        self.entry_locals = {n for n, vs in by_name.items() if all(v is not None and self._is_lookup(v) for v in vs)}
+        self.returns = [n.id for n in g.nodes if n.kind == "stmt" and isinstance(n.stmt, ast.Return) and n.stmt.value is not None]
+        self.stores = [
+            n.id for n in g.nodes
+            if n.kind == "stmt" and isinstance(n.stmt, ast.Assign)
+            and any(isinstance(t, ast.Subscript) and dotted(t.value) == "self._data" for t in n.stmt.targets)
+        ]
+        self.bumps = []
+        for n in g.nodes:
+            st = n.stmt
+            if n.kind != "stmt" or not isinstance(st, ast.Assign) or len(st.targets) != 1:
+                continue
+            t = st.targets[0]
+            # <entry>[2][0] = self._inc_counter()
+            if (isinstance(t, ast.Subscript) and self._const(t.slice) == 0 and self.is_field(t.value, 2)
+                    and self._is_counter_call(st.value)):
+                self.bumps.append(n.id)
+            # self._data[key] = (..., ..., [self._inc_counter()])
+            elif (isinstance(t, ast.Subscript) and dotted(t.value) == "self._data" and unparse(t.slice) == self.key
+                  and isinstance(st.value, ast.Tuple) and len(st.value.elts) == 3 and self.is_fresh_cell(st.value.elts[2])):
+                self.bumps.append(n.id)
+
+    @staticmethod
+    def _const(e):
+        return e.value if isinstance(e, ast.Constant) else None
+
+    @staticmethod
+    def _is_counter_call(e) -> bool:
+        return isinstance(e, ast.Call) and dotted(e.func) == "self._inc_counter" and not e.args
+
+    def _is_lookup(self, e) -> bool:
+        """self._data[key] / self._data.get(key)"""
+        if isinstance(e, ast.Subscript) and dotted(e.value) == "self._data":
+            return unparse(e.slice) == self.key
+        if isinstance(e, ast.Call) and dotted(e.func) == "self._data.get" and e.args:
+            return unparse(e.args[0]) == self.key
+        return False
+
+    def is_entry(self, e) -> bool:
+        return (isinstance(e, ast.Name) and e.id in self.entry_locals) or self._is_lookup(e)
+
+    def is_field(self, e, i) -> bool:
+        """<entry of key>[i]"""
+        return isinstance(e, ast.Subscript) and self._const(e.slice) == i and self.is_entry(e.value)
+
+    def is_fresh_cell(self, e) -> bool:
+        return isinstance(e, ast.List) and len(e.elts) == 1 and self._is_counter_call(e.elts[0])
+
+    def returns_default(self, ret) -> bool:
+        """`return <parameter other than key>` (the caller's default) or a constant."""
+        v = ret.value
+        if isinstance(v, ast.Constant):
+            return True
+        return isinstance(v, ast.Name) and v.id in self.f.params[2:]
 
 
 # ---------------------------------------------------------------------- self-test battery
 R.mutant("orderedset-ior-returns-copy", CY,
          sub("        self.update(iterable)\n        return self\n", "        return self.union(iterable)\n"), "C54-R1")
 R.mutant("orderedset-isub-calls-pure", CY,
-         sub("        self.difference_update(other)\n        return self\n", "        self.difference(other)\n        return self\n"), "C54-R1")
+         sub("        self.difference_update(other)\n        return self\n", "        self.difference(other)\n        return self\n", count=2), "C54-R1")
 R.mutant("identityset-or-returns-self", CY,
          sub("        return self.union(other)\n\n    @cython.ccall\n    def update", "        self.update(other)\n        return self\n\n    @cython.ccall\n    def update"), "C54-R1")
 R.mutant("orderedset-discard-not-overridden", CY,
@@ -373,7 +571,7 @@ R.mutant("immutabledict-setdefault-passes", IMM,
          sub("    def setdefault(self, key: Any, default: Optional[Any] = None) -> NoReturn:\n        _immutable_fn(self)\n",
              "    def setdefault(self, key: Any, default: Optional[Any] = None) -> Any:\n        return dict.setdefault(self, key, default)\n", count=2), "C54-R3")
 R.mutant("immutabledict-ior-removed", IMM,
-         sub("    def __ior__(self, __value: Any, /) -> NoReturn:\n        _immutable_fn(self)\n", ""), "C54-R3")
+         sub("    def __ior__(self, __value: Any, /) -> NoReturn:\n        _immutable_fn(self)\n", "", count=2), "C54-R3")
 R.mutant("immutabledict-union-mutates-self", IMM,
          sub("        result: immutabledict = immutabledict()\n        if not self_is_empty:\n            PyDict_Update(result, self)\n",
              "        result: immutabledict = self\n"), "C54-R3")
@@ -388,3 +586,77 @@ R.mutant("lru-getitem-returns-key", COLL,
 R.mutant("benign-rename-local", CY, sub("other_set: Set[Any] = set.difference(self, *other)\n        return self._from_list([a for a in self._list if a in other_set])",
                                         "keep: Set[Any] = set.difference(self, *other)\n        return self._from_list([a for a in self._list if a in keep])"), None)
 R.mutant("benign-lru-logging", COLL, sub("            size_alert = bool(self.size_alert)\n", "            size_alert = bool(self.size_alert)\n            _n = len(self)\n"), None)
+
+# ---- seeds C54_1 / C54_2 and neighbours (str-u)
+_SYMDIFF_OLD = (
+    "        result: OrderedSet[Union[_T, _S]] = self._from_list(\n"
+    "            [a for a in self._list if a not in other_set]\n"
+    "        )\n"
+    "        result.update([a for a in collection if a not in self])\n"
+    "        return result\n"
+)
+# seed 1: the new set is built in one step from a concatenation whose right half is an arbitrary iterable
+R.mutant("orderedset-symdiff-one-step-concat", CY, sub(
+    _SYMDIFF_OLD,
+    "        return self._from_list(\n"
+    "            [a for a in self._list if a not in other_set]\n"
+    "            + [a for a in collection if a not in self]\n"
+    "        )\n"), "C54-R2")
+# same class, other spelling: the result's order list is extended directly, bypassing update()
+R.mutant("orderedset-symdiff-extends-result-list", CY, sub(
+    "        result.update([a for a in collection if a not in self])\n",
+    "        result._list.extend([a for a in collection if a not in self])\n"
+    "        set.update(result, result._list)\n"), "C54-R2")
+R.mutant("orderedset-intersection-from-argument-order", CY, sub(
+    "        other_set: Set[Any] = set.intersection(self, *other)\n"
+    "        return self._from_list([a for a in self._list if a in other_set])",
+    "        other_set: Set[Any] = set.intersection(self, *other)\n"
+    "        return self._from_list([a for a in other[0] if a in other_set])"), "C54-R2")
+# benign: one-step construction that de-duplicates the foreign half first (halves disjoint by the filter)
+R.mutant("benign-symdiff-one-step-unique", CY, sub(
+    _SYMDIFF_OLD,
+    "        return self._from_list(\n"
+    "            [a for a in self._list if a not in other_set]\n"
+    "            + [a for a in unique_list(collection) if a not in self]\n"
+    "        )\n"), None)
+# benign: the list handed to the private constructor goes through a local
+R.mutant("benign-symdiff-local-list", CY, sub(
+    _SYMDIFF_OLD,
+    "        kept: List[Any] = [a for a in self._list if a not in other_set]\n"
+    "        result: OrderedSet[Union[_T, _S]] = self._from_list(kept)\n"
+    "        result.update([a for a in collection if a not in self])\n"
+    "        return result\n"), None)
+
+_SETITEM_OLD = (
+    "        self._data[key] = (key, value, [self._inc_counter()])\n"
+    "        self._manage_size()\n"
+)
+# seed 2: the key-exists path replaces the value but keeps the old counter
+R.mutant("lru-setitem-existing-key-keeps-counter", COLL, sub(
+    _SETITEM_OLD,
+    "        item = self._data.get(key)\n"
+    "        if item is not None:\n"
+    "            self._data[key] = (key, value, item[2])\n"
+    "        else:\n"
+    "            self._data[key] = (key, value, [self._inc_counter()])\n"
+    "            self._manage_size()\n"), "C54-R4")
+R.mutant("lru-get-does-not-bump", COLL, sub(
+    "        if item is not None:\n            item[2][0] = self._inc_counter()\n            return item[1]\n",
+    "        if item is not None:\n            return item[1]\n"), "C54-R4")
+R.mutant("lru-setitem-no-trim", COLL, sub(_SETITEM_OLD, "        self._data[key] = (key, value, [self._inc_counter()])\n"), "C54-R4")
+R.mutant("lru-setitem-counter-of-other-entry", COLL, sub(
+    _SETITEM_OLD,
+    "        self._data[key] = (key, value, [self._counter])\n        self._manage_size()\n"), "C54-R4")
+# benign: the key-exists path reuses the counter cell AND bumps it; no size check needed there
+R.mutant("benign-lru-setitem-reuse-cell-bumped", COLL, sub(
+    _SETITEM_OLD,
+    "        item = self._data.get(key)\n"
+    "        if item is not None:\n"
+    "            item[2][0] = self._inc_counter()\n"
+    "            self._data[key] = (key, value, item[2])\n"
+    "        else:\n"
+    "            self._data[key] = (key, value, [self._inc_counter()])\n"
+    "            self._manage_size()\n"), None)
+R.mutant("benign-lru-getitem-rename-local", COLL, sub(
+    "        item = self._data[key]\n        item[2][0] = self._inc_counter()\n        return item[1]\n",
+    "        entry = self._data[key]\n        entry[2][0] = self._inc_counter()\n        return entry[1]\n"), None)
